@@ -347,9 +347,12 @@ func genWaiterDirected(r *Rng, id int) *Scenario {
 	sc := &Scenario{ID: id, Stream: "waiter-directed", Seed: r.Next(), Trunk: 16, Branches: map[string]int{"A": 4, "B": 5}, SampleMs: 0, Expect: "completes"}
 	sc.Setup = chain("T", 1, 16)
 	var wa, wb []Event
-	for i := 0; i < 6; i++ {
-		how := []string{"drop", "drop", "wait"}[r.Intn(3)]
-		e := Event{K: "waiter", Ms: 15 + r.Intn(7), API: how} // heights 15..21: already reached, reached later, never reached
+	for i := 0; i < 10; i++ {
+		how := []string{"drop", "wait", "wait"}[r.Intn(3)]
+		e := Event{K: "waiter", Ms: 15 + r.Intn(9), API: how} // dropped: heights 15..23 (reached already, later, never)
+		if how == "wait" {
+			e.Ms = 16 + r.Intn(5) // awaited: heights 16..20, all reached by the blocks of the scenario
+		}
 		if r.Bool() {
 			wa = append(wa, e)
 		} else {
